@@ -197,6 +197,40 @@ def run(job):
             if tuple(wmo) != exp_wmo or (tuple(loc) if loc else None) != exp_loc:
                 t.violation('C14', 'table selection for master %d, centre %d_%d, local %d: %r / %r, expected %r / %r' % (
                     mv, centre, sub, lv, wmo, loc, exp_wmo, exp_loc), {'master': mv, 'centre': centre, 'sub': sub, 'local': lv}, key='C14.versions')
+    # E: the same builder rules AFTER table-definition messages have been read in this process (extra entries registered: every template
+    # then passes through the NCEP repair of replication-only sequences, which must leave well-formed lists alone); run last, the extras
+    # are process-global
+    from pybufrkit.decoder import generate_bufr_message
+    prep = os.path.join(REPO, 'tests', 'data', 'prepbufr.bufr')
+    if os.path.exists(prep):
+        with open(prep, 'rb') as f:
+            stream = f.read()
+        n_def = 0
+        for mm in generate_bufr_message(Decoder(), stream, info_only=False, continue_on_error=True):
+            n_def += 1
+            if n_def >= 12:
+                break
+        if TableGroupCacheManager.has_extra_entries():
+            group2 = TableGroupCacheManager.get_table_group(master_table_number=0, originating_centre=0, originating_subcentre=0,
+                                                            master_table_version=G.VERSION, local_table_version=0, normalize=0)
+            lists = [[1001, 105000, 31001, 103002, 101000, 31001, 12101, 4004, 10004, 11001],
+                     [107000, 31001, 105003, 103000, 31001, 101002, 12101, 4004, 1001, 11001],
+                     [105002, 103000, 31001, 101003, 12101, 1001, 1002],
+                     [1001, 109000, 31001, 107002, 105000, 31001, 103003, 101000, 31001, 12101, 4004, 10004]]
+            for _ in range(150 if quick else 3000):
+                lists.append(gen_ids(rng))
+            for ids in lists:
+                t.case('E.builder-after-definitions', tuple(ids), sample={'ids': ids})
+                r = safe(lambda: group2.template_from_ids(*ids))
+                if r[0] != 'ok':
+                    t.violation('C14', 'after table-definition messages: template_from_ids fails on a well-formed list: %r' % (r[1],), {'ids': ids},
+                                key='C14.after-definitions.fail')
+                    continue
+                if r[1].original_descriptor_ids != ids or real_shape(r[1].members) != tree_shape(R.build_tree(ids, tabs)):
+                    t.violation('C14', 'after table-definition messages: the template built from %r flattens to %r / has another replication ownership '
+                                'than the FM-94 rule' % (ids, r[1].original_descriptor_ids), {'ids': ids, 'history': 'tests/data/prepbufr.bufr'},
+                                observed=repr(real_shape(r[1].members))[:300], expected=repr(tree_shape(R.build_tree(ids, tabs)))[:300],
+                                key='C14.after-definitions.ownership')
     return t.result()
 
 
